@@ -393,20 +393,19 @@ def apply_recipe(sim, name):
 
 
 def add_txs(sim, txs, label):
-    '''Append a block holding those of the given (non-coinbase) txs that are valid here.'''
+    '''Append a block holding those of the given (non-coinbase) txs that are valid here, judged
+    tx by tx against the outputs that are really spendable at this height on this branch.'''
+    h = sim.height + 1
+    avail = set(sim.utxos)
     ok = []
-    spent = set()
-    created = set()
     for t in txs:
-        good = True
-        for prev, idx, _s, _q in t.inputs:
-            op = (prev, idx)
-            if op in spent or not (op in sim.utxos or prev in created):
-                good = False
-        if good:
+        ins = [(i[0], i[1]) for i in t.inputs]
+        if len(set(ins)) == len(ins) and all(op in avail for op in ins):
             ok.append(t)
-            spent.update((i[0], i[1]) for i in t.inputs)
-            created.add(t.txid)
+            avail.difference_update(ins)
+            for idx, (_value, script) in enumerate(t.outputs):
+                if not is_unspendable(script, h, sim.activation):
+                    avail.add((t.txid, idx))
     return sim.add_block([sim.cb()] + ok, label)
 
 
